@@ -1116,6 +1116,17 @@ def stalls_of(run):
                 else:
                     sig = "C14:other:lock-order"
             else:
+                # asleep on the condition.  On the pinned code this needs the receiver's notify_all to PRECEDE the
+                # waiter's entry into the wait-set (otherwise the notify wakes it and it re-tests); a waiter that was
+                # in the wait-set when the receiver released the lock and was never notified is a different defect
+                s2w = next((x for x in after if x[2] == "s2w"), None)
+                n1 = [x for x in ev if x[1] == r and x[2] == "n1" and x[0] < i_d5]
+                if s2w is None or not n1 or s2w[0] < n1[-1][0]:
+                    sig = "C14:other:waiter-in-wait-set-not-notified"
+                    shape = "the waiter was already in the wait-set when the receiver released the receive lock, and was not notified"
+                    out.append(dict(tid=w, seq=c["seq"], receiver=r, t_dispatch=t_d, t_return=c["t_return"], tmo=c["tmo"],
+                                    blocked_in=e[3][2], signature=sig, shape=shape, at=e[0]))
+                    continue
                 sig, shape = SIG_LATE, "waiter tested readiness before the dispatch, then failed the try-lock (held by a thread polling for other traffic) and sleeps on the condition; nobody notifies after the dispatch"
         out.append(dict(tid=w, seq=c["seq"], receiver=r, t_dispatch=t_d, t_return=c["t_return"], tmo=c["tmo"],
                         blocked_in=e[3][2], signature=sig, shape=shape, at=e[0]))
@@ -1129,6 +1140,9 @@ def c13_violations(run):
     seqs = [q for (_t, q) in run.issued]
     if len(set(seqs)) != len(seqs):
         out.append(("C13:seq-reused", "sequence numbers handed out: %r" % (run.issued,)))
+    wire = [q for (_t, q) in run.sent_requests]
+    if len(set(wire)) != len(wire):
+        out.append(("C13:seq-reused", "sequence numbers of the requests put on the wire: %r" % (run.sent_requests,)))
     fids = [f for (f, _t) in run.received]
     if len(set(fids)) != len(fids):
         out.append(("C13:frame-received-twice", "frames received: %r" % (run.received,)))
